@@ -25,6 +25,7 @@ pub const SEC_UNCOMMITTED: u128 = BASE + 10;
 pub const SEC_RAWNODE: u128 = BASE + 11;
 pub const SEC_CONFIG: u128 = BASE + 12;
 pub const SEC_STORE: u128 = BASE + 13;
+pub const SEC_NEW: u128 = BASE + 14;
 pub const MSG_MARK: u128 = BASE + 100;
 pub const PANIC_TOK: u64 = 999999;
 
@@ -664,6 +665,7 @@ pub fn site_of(msg: &str) -> u64 {
         ("cannot find correspond read state", 2021),
         ("Not a vote message", 2022),
         ("not leader but has new msg after advance", 2108),
+        ("config.id must not be zero", 2111),
         ("hard state != prev_hs", 2110),
         ("has snapshot but also has committed entries", 2105),
         ("attempt to add with overflow", 1423),
@@ -752,6 +754,57 @@ fn err_code(e: &raft::Error) -> u64 {
         raft::Error::ConfChangeError(_) => 5,
         _ => 99,
     }
+}
+
+/// One `RawNode::new` case: (case line, implementation's answer line).
+pub fn new_case(cfg: &raft::Config, store: &SimStorage, draws: &[u64], res: &Result<raft::Result<Node>, String>) -> (String, String) {
+    let mut w = W::default();
+    w.0.push_str("node");
+    w.m(SEC_NEW);
+    w.n(cfg.id);
+    w.n(cfg.election_tick as u64);
+    w.n(cfg.heartbeat_tick as u64);
+    w.n(cfg.applied);
+    w.n(cfg.max_size_per_msg);
+    w.n(cfg.max_inflight_msgs as u64);
+    w.b(cfg.check_quorum);
+    w.b(cfg.pre_vote);
+    w.n(cfg.min_election_tick as u64);
+    w.n(cfg.max_election_tick as u64);
+    w.n(match cfg.read_only_option {
+        raft::ReadOnlyOption::Safe => 0,
+        raft::ReadOnlyOption::LeaseBased => 1,
+    });
+    w.b(cfg.skip_bcast_commit);
+    w.b(cfg.batch_append);
+    w.z(cfg.priority);
+    w.n(cfg.max_uncommitted_size);
+    w.n(cfg.max_committed_size_per_ready);
+    w.n(cfg.max_apply_unpersisted_log_limit);
+    w.b(cfg.disable_proposal_forwarding);
+    w.m(SEC_STORE);
+    enc_store(&mut w, store);
+    w.list(draws);
+    let mut a = W::default();
+    a.m(SEC_RESULT);
+    match res {
+        Ok(Ok(node)) => {
+            a.n(0);
+            enc_rawnode(&mut a, node);
+        }
+        Ok(Err(e)) => {
+            a.n(1);
+            a.n(match e {
+                raft::Error::ConfigInvalid(_) => 6,
+                other => err_code(other),
+            });
+        }
+        Err(msg) => {
+            a.n(PANIC_TOK);
+            a.n(site_of(msg));
+        }
+    }
+    (w.0, a.0)
 }
 
 impl Driver {
